@@ -216,6 +216,35 @@ def op_token(op):
     return "S"
 
 
+def set_block(blocks, bid, data, style=None):
+    """insert an optional block through one of the equivalent MutableMapping entry points (chosen by a fixed
+    function of the arguments): blocks[id] = data / update({id: data}) / update(**{id: data}) / update([(id, data)]) /
+    setdefault (when absent).  On the pinned tree all of them run Blocks.__setitem__ and its validation."""
+    if style is None:
+        try:
+            style = (len(data) + sum(ord(c) for c in bid)) % 5
+        except TypeError:
+            style = 0
+    if style == 1:
+        blocks.update({bid: data})
+    elif style == 2 and isinstance(bid, str):
+        blocks.update(**{bid: data})
+    elif style == 3:
+        blocks.update([(bid, data)])
+    elif style == 4 and bid not in blocks:
+        blocks.setdefault(bid, data)
+    else:
+        blocks[bid] = data
+
+
+def del_block(blocks, bid):
+    """del blocks[id] or blocks.pop(id): both raise KeyError when absent"""
+    if (sum(ord(c) for c in bid) % 2) if isinstance(bid, str) else 0:
+        blocks.pop(bid)
+    else:
+        del blocks[bid]
+
+
 def impl_run_ops(kbpk, ops):
     """Execute an op list on one reused KeyBlock (wrap ops are ("W", key, mask):
     the real os.urandom is used).  Returns (header text, [outcome text])."""
@@ -234,10 +263,10 @@ def impl_run_ops(kbpk, ops):
                 setattr(kb.header, FIELDS[op[1]], op[2])
                 outs.append("none")
             elif k == "B":
-                kb.header.blocks[op[1]] = op[2]
+                set_block(kb.header.blocks, op[1], op[2])
                 outs.append("none")
             elif k == "D":
-                del kb.header.blocks[op[1]]
+                del_block(kb.header.blocks, op[1])
                 outs.append("none")
             elif k == "K":
                 kb.kbpk = op[1]
